@@ -7,4 +7,5 @@ import SlimProps.Bridge.C20
 import SlimProps.Bridge.C20Text
 import SlimProps.Bridge.Versions
 import SlimProps.Bridge.Tags
+import SlimProps.Bridge.EncLookup
 /- SlimProps.Bridge — umbrella of the per-group tie-1 modules (SlimProps/Bridge/*.lean). -/
